@@ -655,7 +655,8 @@ func (t *Table) Put(input *types.PutItemInput) (map[string]*types.Item, error) {
 	item := copyItem(input.Item)
 
 	if err := t.CheckNumbers(input.Item, input.ExpressionAttributeValues); err != nil {
-		return item, err
+		// (the item is not well formed: it is not handed back)
+		return nil, err
 	}
 
 	key, err := t.KeySchema.GetKey(t.AttributesDef, input.Item)
@@ -752,7 +753,7 @@ func (t *Table) interpreterUpdate(input interpreter.UpdateInput) error {
 
 // Update updates an item in the table based on the input
 func (t *Table) Update(input *types.UpdateItemInput) (map[string]*types.Item, error) {
-	if err := t.CheckNumbers(input.ExpressionAttributeValues); err != nil {
+	if err := t.CheckNumbers(input.Key, input.ExpressionAttributeValues); err != nil {
 		return nil, err
 	}
 
@@ -849,7 +850,7 @@ func (t *Table) Update(input *types.UpdateItemInput) (map[string]*types.Item, er
 
 // Delete deletes an item in the table based on the input
 func (t *Table) Delete(input *types.DeleteItemInput) (map[string]*types.Item, error) {
-	if err := t.CheckNumbers(input.ExpressionAttributeValues); err != nil {
+	if err := t.CheckNumbers(input.Key, input.ExpressionAttributeValues); err != nil {
 		return nil, err
 	}
 
